@@ -17,8 +17,8 @@ def rand_clause(rng, nv):
     return [rng.choice([1, -1]) * rng.randint(1, nv) for _ in range(k)]
 
 
-def rand_sat_history(rng, length):
-    nv = rng.randint(1, 8)
+def rand_sat_history(rng, length, nv=None):
+    nv = nv or rng.randint(1, 8)
     ops = []
     for _ in range(length):
         r = rng.random()
@@ -45,7 +45,7 @@ def rand_sat_history(rng, length):
 class C15(Property):
     id = "C15"
     families = ["sat"]
-    rule = ("random incremental histories (empty clause, unit clauses, reserved but unused variables, assumptions on unseen variables, contradictory assumptions) of "
+    rule = ("random incremental histories (empty clause, unit clauses, reserved but unused variables, assumptions on unseen variables, contradictory assumptions; one in ten with 40-300 variables and 60-300 operations) of "
             "add_clause / reserve / solve / solve_under_assumptions / n_vars on CadicalSolver and on ExternalSatSolver driving kissat; every reported model is "
             "evaluated against all clauses added so far and the assumptions of the call, its length against n_vars; UNSAT is cross-checked by enumeration "
             "(<= 14 variables); n_vars and, for the external backend, the DIMACS text and the interpretation of the reply are compared with the Lean model; "
@@ -60,7 +60,7 @@ class C15(Property):
         capdir = os.path.join(common.CACHE, "cap-%s-%d" % (self.id, os.getpid()))
         self.capdir = capdir
         for i in range(k):
-            ops = rand_sat_history(rng, rng.randint(3, 25))
+            ops = rand_sat_history(rng, rng.randint(3, 25)) if rng.random() < 0.9 else rand_sat_history(rng, rng.randint(60, 300), rng.randint(40, 300))
             o = ";".join(ops)
             lines.append("sat x backend=cadical ops=%s" % o)
             lines.append("sat x backend=%s ops=%s cap=%s/c%d" % (FAKE, o, capdir, i))
@@ -262,7 +262,7 @@ class C16(Property):
             lines.append(line)
         # (1) incremental histories with capture (assumption-only variables included)
         for i in range(60 if tier == "quick" else 1000):
-            ops = rand_sat_history(rng, rng.randint(3, 15))
+            ops = rand_sat_history(rng, rng.randint(3, 15)) if rng.random() < 0.85 else rand_sat_history(rng, rng.randint(60, 300), rng.randint(40, 300))
             lines.append("sat x backend=%s ops=%s cap=%s/h%d" % (FAKE, ";".join(ops), base, i))
         return lines
 
